@@ -200,7 +200,7 @@ let () =
          let g = parse_header head in
          let mg = mgram g in
          let valid = verify mg && nodup_prods mg.prods in
-         let an = if valid then analyse mg else None in
+         let an = if valid then analyse mg (id_oracle mg) else None in
          let opno = ref 0 in
          let mismatch kind fmt =
            Printf.ksprintf (fun s -> Printf.printf "MISMATCH line=%d op=%d kind=%s what=%s\n" !lineno !opno kind s) fmt in
